@@ -39,6 +39,7 @@ func runC07(c *Ctx) {
 	sentinelIdentity(c, "R8")
 	fuzzLimitGuarded(c, "R9")
 	c.shared("R7", "C02/R3", "next and exit are consumed exactly by the rule drivers: every test against errNext / errExit sits in a driver, so a `next` leaves the current rule list and an `exit` the run from any nesting of statements", nil, c02R3)
+	c.shared("R12", "C01/R2", "break and continue are accepted in every loop nesting: the parser's in-loop flag is set for a loop body and restored to what it was before (not cleared) when the body ends, so the rest of an enclosing loop's body is still inside a loop", keyHas("region inLoop"), func(s *Ctx) { scopeAgreement(s, "R2") })
 	mapRangeOrder(c, "R5")
 	c07ForIn(c, es)
 	c07Dispatch(c)
@@ -454,13 +455,44 @@ func c07ForIn(c *Ctx, es *ssa.Function) {
 	ms := p.maySetOf(es, "(*lang.Evaluator).evalExpr(e, stmt.(*lang.StatementForIn)#0.Iterable)#0.Value.Tag", valueTagNames(p))
 	V := "(*lang.Evaluator).evalExpr(e, stmt.(*lang.StatementForIn)#0.Iterable)#0.Value"
 	got := map[string]map[string]bool{}
+	// the loop variables' cells come from getVariable, directly or through a helper split off
+	// evalStatement whose cell result is getVariable's
+	varCellFns := []string{"getVariable"}
+	for _, h := range p.privateCluster(es) {
+		if h == es || h.Signature.Results().Len() != 2 {
+			continue
+		}
+		wraps, other := false, false
+		for _, r := range returnsOf(h) {
+			res := effectiveResults(r)
+			if isNilConst(res[0]) {
+				continue
+			}
+			if call, idx := callOf(res[0]); call != nil && idx == 0 && staticCalleeIs(call, "(*lang.Evaluator).getVariable") {
+				wraps = true
+			} else {
+				other = true
+			}
+		}
+		if wraps && !other {
+			varCellFns = append(varCellFns, strings.TrimPrefix(shortName(h), "(*lang.Evaluator)."))
+		}
+	}
+	isVarCell := func(addr string) bool {
+		for _, n := range varCellFns {
+			if strings.Contains(addr, n+"(") {
+				return true
+			}
+		}
+		return false
+	}
 	allInstrs(es, func(in ssa.Instruction) {
 		st, ok := in.(*ssa.Store)
 		if !ok || isLocalAddr(st.Addr) {
 			return
 		}
 		addr := p.RenderShort(st.Addr)
-		if !strings.Contains(addr, "getVariable") {
+		if !isVarCell(addr) {
 			return
 		}
 		which := "loopvar"
@@ -531,7 +563,7 @@ func c07ForIn(c *Ctx, es *ssa.Function) {
 	for _, body := range findCall(es, "(*lang.Evaluator).evalStatement", "StatementForIn.Body") {
 		dom := false
 		allInstrs(es, func(in ssa.Instruction) {
-			if st, ok := in.(*ssa.Store); ok && !isLocalAddr(st.Addr) && strings.Contains(p.RenderShort(st.Addr), "getVariable") && !strings.Contains(p.RenderShort(st.Addr), "IndexIdent") {
+			if st, ok := in.(*ssa.Store); ok && !isLocalAddr(st.Addr) && isVarCell(p.RenderShort(st.Addr)) && !strings.Contains(p.RenderShort(st.Addr), "IndexIdent") {
 				if dominatesInstr(st, body) && st.Block() == body.Block() || dominatesInstr(st, body) && reachableFrom(st.Block().Succs, map[*ssa.BasicBlock]bool{body.Block(): true})[body.Block()] {
 					dom = true
 				}
